@@ -1414,9 +1414,22 @@ func (x *Exec) goStmt(st *State, fr *Frame, ins *ssa.Go, args []*Value, fnv *Val
 				if cv, ok := st.cells[fnv.Fn.Bindings[i].Ptr.Cell]; ok {
 					env.vars[fv.Name()] = cv
 				}
+			} else if i < len(fnv.Fn.Bindings) && fnv.Fn.Bindings[i].Ptr != nil {
+				env.vars[fv.Name()] = x.load(st, fnv.Fn.Bindings[i].Ptr)
 			}
 		}
 		short := shortCallee(name)
+		for _, inv := range x.C.Invs {
+			if fc.NoInv[inv.Name] || fc.NoInv["*"] || inv.History || inv.Owned {
+				continue
+			}
+			for i, p := range callee.Params {
+				if x.typeMatches(p.Type(), inv.Type) && i < len(args) {
+					x.oblige(st, "go@"+short, "inv_"+inv.Name, inv.Props, x.evalBool(env.with(inv.Binder, args[i]), inv.Expr), where, inv.Src)
+					break
+				}
+			}
+		}
 		for i, r := range fc.Requires {
 			label := r.Label
 			if label == "" {
